@@ -24,6 +24,8 @@ import (
 	"github.com/pkg/sftp"
 )
 
+var c18NeverQuiet int32 // set once a case found pages still in use 5 s after the last response
+
 func init() {
 	register("c18", runC18)
 	childEntries["c18"] = func([]string) { childLoop(c18ChildHandle) }
@@ -173,10 +175,18 @@ func c18Exec(prog *pgProgram, k c02Cfg, gated bool, permSeed int64, slow bool) (
 	}
 	out.res = pgRun(in, prog.reqs, ro)
 	// quiescence: every response is out; only the receive page of the packet not yet arrived may be in use
+	limit := 5 * time.Second
+	if atomic.LoadInt32(&c18NeverQuiet) != 0 {
+		limit = 100 * time.Millisecond // an earlier case of this process already waited in vain: the failure is reported anyway
+	}
 	for t0 := time.Now(); ; {
 		u, _, ok := sftp.VerifAllocCounts(in.srv)
 		out.usedQ, out.hasAlloc = u, ok
-		if !ok || u <= 1 || time.Since(t0) > 5*time.Second {
+		if !ok || u <= 1 {
+			break
+		}
+		if time.Since(t0) > limit {
+			atomic.StoreInt32(&c18NeverQuiet, 1)
 			break
 		}
 		time.Sleep(time.Millisecond)
@@ -283,6 +293,7 @@ func runC18(c *Ctx) {
 	if c.Thorough() {
 		nProg = 1600
 	}
+	lost := 0 // cases whose process died or did not answer within 45 s
 	child, err := startChild("c18", 6000000)
 	if err != nil {
 		c.Diag("c18 child: %v", err)
@@ -303,9 +314,14 @@ func runC18(c *Ctx) {
 					gated := reqServer && !serial && pi%3 != 2 // a third of the pipelined request-server cases run with open gates (natural timing)
 					req := fmt.Sprintf("diff rs=%v maxtx=%d serial=%v seed=%d depth=%d big=%v slow=%v gated=%v", reqServer, maxTx, serial, seed, depth, big, slow, gated)
 					n := c.Case("diff", kvs("srv", c02Cfg{reqServer: reqServer}.name()), kvx("maxtx", uint64(maxTx)), kvb("serial", serial), kvb("gated", gated), kvb("slowreader", slow), kvx("seed", uint64(seed)), kvi("depth", depth))
-					ans, alive := child.ask(req, 120*time.Second)
+					if lost >= 3 {
+						c.Oracle(n, false, "server-crash: not run: three earlier cases of this family crashed or hung their process")
+						continue
+					}
+					ans, alive := child.ask(req, 45*time.Second)
 					f := strings.SplitN(ans, "|", 4)
 					if !alive || len(f) != 4 {
+						lost++
 						// the server panicked (or hung): run the case again in a fresh process that keeps stderr, to name the panic
 						child.kill()
 						_, _, panicLine := c18Spawn(req)
